@@ -559,7 +559,10 @@ def _timeout_default(
     """
 
     def handler(queue, func, args, kwargs):
-        queue.put(func(*args, **kwargs))
+        try:
+            queue.put((True, func(*args, **kwargs)))
+        except BaseException as exc:
+            queue.put((False, exc))
 
     def decorator(func):
         def wrapper(*args, **kwargs):
@@ -591,7 +594,12 @@ def _timeout_default(
                 return return_value
 
             else:
-                return q.get()
+                finished, result = q.get()
+
+                if not finished:
+                    raise result  # Exception raised by the function
+
+                return result
 
         return wrapper
 
